@@ -74,8 +74,15 @@ def build(kind, st):
     raise ValueError(kind)
 
 
+def typed_index(a, t):
+    """the index value in another arithmetic type: size_t, long, unsigned int"""
+    return {1: f"size_t({a})", 2: f"{a}l" if a >= 0 else f"(0l - {-a}l)", 3: f"{a}u" if a >= 0 else f"size_t({a})"}[t]
+
+
 def op_src(kind, op):
     n, a, b, s = op["n"], op["a"], op["b"], op["s"]
+    if n == "idx_t":
+        return f"c[{typed_index(a, b)}]"
     if kind == "vec":
         return {"idx": f"c[{a}]", "front": "c.front()", "back": "c.back()", "pop_back": "c.pop_back()", "push_back": f"c.push_back({a})",
                 "insert_at": f"c.insert_at({a}, {b})", "erase_at": f"c.erase_at({a})", "resize": f"c.resize({a})",
@@ -111,8 +118,8 @@ def contents(kind, st):
     return render_vec(s[b:e])
 
 
-READS = {"vec": {"idx", "front", "back", "size", "empty"},
-         "str": {"idx", "size", "empty", "substr", "find", "rfind", "find_first_of", "find_last_of", "find_first_not_of", "find_last_not_of"},
+READS = {"vec": {"idx", "idx_t", "front", "back", "size", "empty"},
+         "str": {"idx", "idx_t", "size", "empty", "substr", "find", "rfind", "find_first_of", "find_last_of", "find_first_not_of", "find_last_not_of"},
          "map": {"at", "count", "size", "empty"}}
 
 
